@@ -11,7 +11,7 @@ PROP = {
         job("server-send", "core", "./server/", "server",
             ["harness/core/server/c05_send_test.go"], "^TestVerifC05ServerSend$", ["server-send"]),
         job("server-session", "core", "./server/", "server",
-            ["harness/core/server/c05_session_test.go"], "^TestVerifC05ServerSession$", ["server-session"]),
+            ["harness/core/server/c05_session_test.go"], "^TestVerifC05Server(Session|ReceiveOrder)$", ["server-session", "server-recv-order"]),
         job("client-send", "core", "./client/", "client",
             ["harness/core/client/c05_send_test.go"], "^TestVerifC05Client", ["client-send", "client-session"]),
     ],
@@ -33,7 +33,9 @@ PROP = {
              "completely sent message must be delivered once. server-session: a real udpSessionManager relays 3..10 replies "
              "of 1..3x the datagram budget while the limit reported by the fake QUIC layer moves down and up between "
              "replies; every FRAGMENT handed to the datagram layer must fit the limit in force, and what left must "
-             "reassemble to exactly the replies read from the socket. A case is non-trivial when the message was actually split "
+             "reassemble to exactly the replies read from the socket. server-recv-order: fragments of a message fed to a real "
+             "udpSessionManager in every permutation (2..4 fragments) and in random orders with duplicates (5..34), as the "
+             "first message of a session and on an existing one: the socket must receive the payload exactly once. A case is non-trivial when the message was actually split "
              "(>=2 fragments); distinct = distinct (sizes, arrival order)."),
     "assumptions": [
         "concurrent messages carry distinct packet IDs (precondition stated by the property)",
